@@ -204,7 +204,12 @@ pub struct Recorder<const N: usize> {
     pub log: DemuxLog,
     pub binds: Vec<Endpoint>,
     pub bind_results: Arc<Mutex<Vec<(usize, usize, Endpoint, bool)>>>,
+    /// binds performed while the simulation runs: (time after the barrier, endpoint); results with the time they were made
+    pub late_binds: Vec<(Duration, Endpoint)>,
+    pub late_results: LateBindLog,
 }
+
+pub type LateBindLog = Arc<Mutex<Vec<(usize, usize, Endpoint, bool, Duration)>>>;
 
 #[async_trait]
 impl<const N: usize> Protocol for Recorder<N> {
@@ -216,6 +221,21 @@ impl<const N: usize> Protocol for Recorder<N> {
             }
         }
         initialized.wait().await;
+        if !self.late_binds.is_empty() {
+            self.wire.mark_start();
+            let t0 = Instant::now();
+            let (mut late, results, wire, me, id) = (self.late_binds.clone(), self.late_results.clone(), self.wire.clone(), self.machine, self.id());
+            late.sort_by_key(|l| l.0);
+            tokio::spawn(async move {
+                for (at, ep) in late {
+                    tokio::time::sleep_until(t0 + at).await;
+                    if let Some(udp) = machine.protocol::<elvis_core::protocols::Udp>() {
+                        let r = udp.listen(id, ep, machine.clone());
+                        results.lock().unwrap().push((me, N, ep, r.is_ok(), wire.now()));
+                    }
+                }
+            });
+        }
         Ok(())
     }
 
@@ -237,9 +257,15 @@ impl<const N: usize> Protocol for Recorder<N> {
 
 /// helper to add the N-th recorder to a machine
 pub fn with_recorder(m: Machine, n: usize, machine: usize, wire: &Arc<Wire>, log: &DemuxLog, binds: Vec<Endpoint>, results: &Arc<Mutex<Vec<(usize, usize, Endpoint, bool)>>>) -> Machine {
+    with_recorder_late(m, n, machine, wire, log, binds, results, vec![], &Default::default())
+}
+
+/// like with_recorder, with binds that are made while the simulation runs
+#[allow(clippy::too_many_arguments)]
+pub fn with_recorder_late(m: Machine, n: usize, machine: usize, wire: &Arc<Wire>, log: &DemuxLog, binds: Vec<Endpoint>, results: &Arc<Mutex<Vec<(usize, usize, Endpoint, bool)>>>, late_binds: Vec<(Duration, Endpoint)>, late_results: &LateBindLog) -> Machine {
     macro_rules! mk {
         ($k:literal) => {
-            m.with(Recorder::<$k> { machine, wire: wire.clone(), log: log.clone(), binds, bind_results: results.clone() })
+            m.with(Recorder::<$k> { machine, wire: wire.clone(), log: log.clone(), binds, bind_results: results.clone(), late_binds, late_results: late_results.clone() })
         };
     }
     match n {
